@@ -131,28 +131,29 @@ def updN {α} (f : Nat → α) (a : Nat) (x : α) : Nat → α := fun i => if i 
 def Net.hasLink (n : Net) (via : Via) (s r : Nat) : Bool :=
   n.links.any fun l => l.via.isConnection == via.isConnection && l.s == s && l.r == r
 
-/-- make a link. Connections: `connect` appends when the gate says yes. Value links: after the gate the
-setter pushes the sender's current value into the partner (`new_partner.value = self.value`, checked
-by the partner unless it is `NOT_DATA`) and only then stores the partner; a sender has one value
-receiver at a time. -/
+/-- make a link. Connections: `connect` skips a partner it is already connected to (no new comparison),
+otherwise inserts when the gate says yes. Value links: after the gate the setter pushes the sender's
+current value into the partner (`new_partner.value = self.value`, checked by the partner unless it is
+`NOT_DATA`) and only then stores the partner; a sender has one value receiver at a time. -/
 def Net.link (cfg : Cfg) (n : Net) (via : Via) (s r : Nat) : Net × Outcome :=
-  match gate cfg via (n.chan s) (n.chan r) with
-  | none => (n, .diverges)
-  | some false => (n, .refused)
-  | some true =>
-    let l : Link := ⟨via, s, r, (n.chan r).strict⟩
-    if via.isConnection then
-      if n.hasLink via s r then (n, .ok) else ({ n with links := l :: n.links }, .ok)
-    else
-      match n.val s with
-      | some v =>
-        if typeCheckOk cfg (n.chan r) v then
-          ({ n with val := updN n.val r (some v),
+  if via.isConnection && n.hasLink via s r then (n, .ok)
+  else
+    match gate cfg via (n.chan s) (n.chan r) with
+    | none => (n, .diverges)
+    | some false => (n, .refused)
+    | some true =>
+      let l : Link := ⟨via, s, r, (n.chan r).strict⟩
+      if via.isConnection then ({ n with links := l :: n.links }, .ok)
+      else
+        match n.val s with
+        | some v =>
+          if typeCheckOk cfg (n.chan r) v then
+            ({ n with val := updN n.val r (some v),
+                      links := l :: n.links.filter fun k => k.via.isConnection || k.s != s }, .ok)
+          else (n, .receiverRejects)
+        | none =>
+          ({ n with val := updN n.val r none,
                     links := l :: n.links.filter fun k => k.via.isConnection || k.s != s }, .ok)
-        else (n, .receiverRejects)
-      | none =>
-        ({ n with val := updN n.val r none,
-                  links := l :: n.links.filter fun k => k.via.isConnection || k.s != s }, .ok)
 
 /-- `channel.strict_hints = b` (`(de)activate_strict_hints` of a channel, an IO panel, a node) -/
 def Net.setStrict (n : Net) (i : Nat) (b : Bool) : Net :=
